@@ -112,8 +112,8 @@ theorem step_eq_partial (l : Bits) (op : Op) (h : op.deviant l = false) : stepAl
     simp only [Op.deviant] at h
     simp only [stepAlg, stepSpec, insert_eq_spec_partial l b pos h]
   | overwrite b pos =>
-    simp only [Op.deviant, Bool.or_eq_false_iff] at h
-    simp only [stepAlg, stepSpec, overwrite_eq_spec_partial l b pos h.1 h.2]
+    simp only [Op.deviant] at h
+    simp only [stepAlg, stepSpec, overwrite_eq_spec_partial l b pos h]
   | delItem i => rfl
   | delSlice a b c => rfl
   | setItem i v =>
@@ -126,16 +126,10 @@ theorem step_eq_partial (l : Bits) (op : Op) (h : op.deviant l = false) : stepAl
       simp only [Op.deviant, Bool.or_eq_false_iff] at h
       simp only [stepAlg, stepSpec, setSliceInt_eq_spec_partial l a b c v h.1 h.2]
     | bits v => rfl
-  | replace old new s e count al =>
-    simp only [Op.deviant] at h
-    simp only [stepAlg, stepSpec, replace_eq_spec_partial l old new s e count al h]
+  | replace old new s e count al => simp only [stepAlg, stepSpec, replace_eq_spec]
   | reverse s e => simp only [stepAlg, stepSpec, reverse_eq_spec]
-  | rol k s e =>
-    simp only [Op.deviant] at h
-    simp only [stepAlg, stepSpec, rol_eq_spec_partial l k s e h]
-  | ror k s e =>
-    simp only [Op.deviant] at h
-    simp only [stepAlg, stepSpec, ror_eq_spec_partial l k s e h]
+  | rol k s e => simp only [stepAlg, stepSpec, rol_eq_spec]
+  | ror k s e => simp only [stepAlg, stepSpec, ror_eq_spec]
   | set v p =>
     cases p with
     | all =>
@@ -162,21 +156,15 @@ theorem step_eq_partial (l : Bits) (op : Op) (h : op.deviant l = false) : stepAl
 
 /-- The full statement `∀ l op, stepAlg l op = stepSpec l op` is false on the pinned tree: one witness per region. -/
 theorem step_eq_witness :
-    stepAlg [true, true, false, true, false, false] (.rol 2 (some 1) (some 1)) ≠
-      stepSpec [true, true, false, true, false, false] (.rol 2 (some 1) (some 1)) ∧
-    stepAlg [true, true, false, true, false, false] (.overwrite .self 2) ≠
-      stepSpec [true, true, false, true, false, false] (.overwrite .self 2) ∧
     stepAlg (List.replicate 6 false) (.set true (.range 5 (-1) (-1))) ≠
       stepSpec (List.replicate 6 false) (.set true (.range 5 (-1) (-1))) ∧
     stepAlg [] (.set true .all) ≠ stepSpec [] (.set true .all) ∧
     stepAlg [true] (.insert (.lit []) 5) ≠ stepSpec [true] (.insert (.lit []) 5) ∧
-    stepAlg [true] (.replace (.lit []) (.lit []) none none (some 0) false) ≠
-      stepSpec [true] (.replace (.lit []) (.lit []) none none (some 0) false) ∧
     stepAlg (List.replicate 6 false) (.setSlice (some 4) (some 0) (some (-1)) (.int 1)) ≠
       stepSpec (List.replicate 6 false) (.setSlice (some 4) (some 0) (some (-1)) (.int 1)) ∧
     stepAlg (natToBits 24 0x010203) (.byteswap (.int 2) (some 0) (some 8) false) ≠
       stepSpec (natToBits 24 0x010203) (.byteswap (.int 2) (some 0) (some 8) false) := by
-  refine ⟨by decide, by decide, by decide, by decide, by decide, by decide, by decide, by decide⟩
+  refine ⟨by decide, by decide, by decide, by decide, by decide⟩
 
 /-- Error atomicity: when an operation raises, the content is what it was — for every operation except `set` / `invert`
     over an iterable of positions (lists and ranges), which keep the valid prefix (`set_partial_prefix`). -/
@@ -339,9 +327,6 @@ theorem neverDeviant_not_deviant (l : Bits) (op : Op) (h : op.neverDeviant = tru
     | range a b c => simp [Op.neverDeviant] at h
   | insert b pos => simp [Op.neverDeviant] at h
   | overwrite b pos => simp [Op.neverDeviant] at h
-  | replace old new s e count al => simp [Op.neverDeviant] at h
-  | rol k s e => simp [Op.neverDeviant] at h
-  | ror k s e => simp [Op.neverDeviant] at h
   | byteswap f s e rep => simp [Op.neverDeviant] at h
   | _ => rfl
 
